@@ -11,7 +11,9 @@
 (***************************************************************************)
 EXTENDS ScoreGen, Json
 
-CONSTANTS Modes, MaxN, Rich, AccGrid
+CONSTANTS Modes, MaxN, Rich, AccGrid,
+          BigN,          \* shapes up to BigN objects are used for the accuracy-only family (C13)
+          DenseGrid      \* accuracy targets for that family
 
 VARIABLES c, phase, res, first
 
@@ -30,6 +32,18 @@ Shapes(m) ==
     [] m = "mania" -> {Shape(a, b, 0, 0) : <<a, b>> \in
              {t \in (0..MaxN) \X (0..2) : t[2] <= t[1] /\ (~Rich => t[1] \in {0, 1, MaxN})}}
 
+BigShapes(m) ==
+  CASE m = "osu" ->
+         {Shape(a, b, cc, a + b + cc) : <<a, b, cc>> \in
+             {t \in ((MaxN + 1)..BigN) \X (0..3) \X (0..2) : t[2] <= t[1] /\ (t[2] = 0 => t[3] = 0)
+                                                           /\ (~Rich => t[1] = BigN /\ t[2] \in {0, 2})}}
+    [] m = "taiko" -> {Shape(a, 0, 0, 0) : a \in (MaxN + 3)..(BigN + 2)}
+    [] m = "catch" -> {Shape(a, b, cc, 0) : <<a, b, cc>> \in
+             {t \in ((MaxN + 1)..BigN) \X (0..2) \X {0, 3, 6} : ~Rich => t[1] = BigN /\ t[2] = 1}}
+    [] m = "mania" -> {Shape(a, b, 0, 0) : <<a, b>> \in
+             {t \in ((MaxN + 1)..BigN) \X (0..2) : ~Rich => t[1] = BigN}}
+IsBig(m, sh) == sh \in BigShapes(m)
+
 NOf(m, sh) == IF m = "catch" THEN sh.a + sh.b ELSE sh.a
 Nat0(S) == {v \in S : v >= 0} \cup {NONE}
 
@@ -47,6 +61,7 @@ Provided(m, sh) ==
   LET n == NOf(m, sh)
       none == [f \in Fields |-> NONE]
       V == Vals(n)
+      MV == IF Rich THEN V ELSE Nat0({1, n + 2})          \* mania has five main fields
       TV == Nat0({0, sh.c, sh.c + 1})
       X == {NONE, 0, sh.b + sh.c + 1}
       core ==
@@ -58,7 +73,7 @@ Provided(m, sh) ==
                {[none EXCEPT !.n300 = q[1], !.n100 = q[2], !.miss = q[3]] : q \in V \X V \X V}
           [] m = "mania" ->
                {[none EXCEPT !.geki = q[1], !.n300 = q[2], !.katu = q[3], !.n100 = q[4], !.n50 = q[5], !.miss = q[6]] :
-                   q \in V \X V \X V \X V \X V \X (IF Rich THEN V ELSE {NONE, 1})}
+                   q \in MV \X MV \X MV \X MV \X MV \X {NONE, 1}}
       combo == IF m = "mania" THEN {}
                ELSE {[none EXCEPT !.combo = q[1], !.miss = q[2]] : q \in ComboVals(m, sh) \X V}
       extras ==
@@ -71,11 +86,36 @@ Provided(m, sh) ==
           [] OTHER -> {}
   IN core \cup combo \cup extras
 
+(* with accuracy: every subset of provided main results (values 0 / 1), optional misses *)
+ProvidedAcc(m, sh) ==
+  LET none == [f \in Fields |-> NONE]
+      B == IF Rich THEN {NONE, 0, 1, NOf(m, sh)} ELSE {NONE, 1}
+      TV == {NONE, 1}
+  IN CASE m = "osu" ->
+            {[none EXCEPT !.n300 = q[1], !.n100 = q[2], !.n50 = q[3], !.miss = q[4]] : q \in B \X B \X B \X {NONE, 1}}
+       [] m = "taiko" ->
+            {[none EXCEPT !.n300 = q[1], !.n100 = q[2], !.miss = q[3]] : q \in B \X B \X {NONE, 1}}
+       [] m = "catch" ->
+            {[none EXCEPT !.n300 = q[1], !.n100 = q[2], !.miss = q[3], !.n50 = q[4], !.katu = q[5]] :
+                q \in B \X B \X {NONE, 1} \X TV \X TV}
+       [] m = "mania" ->
+            {[none EXCEPT !.geki = q[1], !.n300 = q[2], !.katu = q[3], !.n100 = q[4], !.n50 = q[5], !.miss = q[6]] :
+                q \in B \X B \X B \X B \X B \X {NONE, 1}}
+
+(* accuracy only (C13): nothing provided but the misses, every miss count *)
+ProvidedAccOnly(m, sh) ==
+  {[[f \in Fields |-> NONE] EXCEPT !.miss = q] : q \in {NONE} \cup (0..NOf(m, sh))}
+
 (* all cases of one (mode, shape, passed): TLC computes initial states on one thread, so the   *)
 (* enumeration is split: root -> (mode, shape, passed) -> case, the second step runs in parallel *)
+Case(m, sh, ps, p, pr, og, ac) == [mode |-> m, sh |-> sh, passed |-> ps, p |-> p, prio |-> pr, origin |-> og, acc |-> ac]
+
 CasesOf(m, sh, ps) ==
-    {[mode |-> m, sh |-> sh, passed |-> ps, p |-> p, prio |-> pr, origin |-> og, acc |-> ac] :
-        <<p, pr, og, ac>> \in Provided(m, sh) \X {"B", "W"} \X Origins(m) \X ({NONE} \cup AccGrid)}
+  IF IsBig(m, sh)
+  THEN {Case(m, sh, ps, q[1], q[2], q[3], q[4]) : q \in ProvidedAccOnly(m, sh) \X {"B", "W"} \X Origins(m) \X DenseGrid}
+  ELSE {Case(m, sh, ps, q[1], q[2], q[3], NONE) : q \in Provided(m, sh) \X {"B", "W"} \X Origins(m)}
+       \cup {Case(m, sh, ps, q[1], q[2], q[3], q[4]) : q \in ProvidedAcc(m, sh) \X {"B", "W"} \X Origins(m) \X AccGrid}
+       \cup {Case(m, sh, ps, q[1], q[2], q[3], q[4]) : q \in ProvidedAccOnly(m, sh) \X {"B", "W"} \X Origins(m) \X DenseGrid}
 
 NoneP == [f \in Fields |-> NONE]
 Stub(m, sh, ps) == [mode |-> m, sh |-> sh, passed |-> ps, p |-> NoneP, prio |-> "B", origin |-> "S", acc |-> NONE]
@@ -87,8 +127,10 @@ Modelled(cs) ==
      /\ \/ (Has(cs.p.n50) /\ ~Has(cs.p.katu)) \/ (~Has(cs.p.n50) /\ Has(cs.p.katu))
         \/ (Has(cs.p.n50) /\ Has(cs.p.katu) /\ cs.p.n50 + cs.p.katu = cs.sh.c)
 
-Init == /\ \E m \in Modes : \E sh \in Shapes(m) :
-             \E ps \in (IF m = "catch" THEN {NONE} ELSE PassedVals(NOf(m, sh))) : c = Stub(m, sh, ps)
+Init == /\ \E m \in Modes : \E sh \in Shapes(m) \cup BigShapes(m) :
+             \E ps \in (IF m = "catch" THEN {NONE}
+                        ELSE IF IsBig(m, sh) THEN {NONE, NOf(m, sh) - 2}
+                        ELSE PassedVals(NOf(m, sh))) : c = Stub(m, sh, ps)
         /\ phase = "shape"
         /\ res = ZeroRes
         /\ first = ZeroRes
